@@ -292,8 +292,8 @@ ObsCreat ==
   /\ nobs' = nobs + 1
   /\ created' = created \cup {<<Ev.id, Ev.base>>}
   /\ IF FaultyNF THEN UNCHANGED <<viol, bad>>
-     ELSE IF \E p \in created : p[1] = Ev.id /\ p[2] # Ev.base THEN /\ V("SegmentIDReused") /\ bad' = TRUE
-     ELSE IF Ev.res # "ok" THEN /\ V("CreateCollision") /\ bad' = TRUE
+     ELSE IF \E p \in created : p[1] = Ev.id /\ p[2] # Ev.base THEN /\ V("SegmentIDReused") /\ UNCHANGED bad
+     ELSE IF Ev.res # "ok" THEN /\ V("CreateCollision") /\ UNCHANGED bad   \* keep judging: the failed Open that follows is C03's business
      ELSE UNCHANGED <<viol, bad>>
   /\ UNCHANGED <<fam, vis, dur, kvis, kdur, sub, ncrash, flt, clr, pend, trunc, ckpt, cnt>>
 
